@@ -490,7 +490,7 @@ def gen_loc_file(rng):
         for k in range(nl):
             off = len(loc)
             pos = 0
-            for e in range(rng.choice([1, 2, 3])):
+            for e in range(rng.choice([1, 2, 3, 0] if k else [1, 2, 3])):       # 0: nothing but the terminator (a variable that is nowhere live)
                 if rng.random() < 0.15:
                     loc += struct.pack(A, MAXA) + struct.pack(A, low + 0x100)  # base address selection: the following rows move
                 a = pos + rng.choice([0, 4, 0x10])
@@ -511,7 +511,7 @@ def gen_loc_file(rng):
         for k in range(nr):
             off = len(rngs)
             pos = 0
-            for e in range(rng.choice([1, 2, 4])):
+            for e in range(rng.choice([1, 2, 4, 0] if k else [1, 2, 4])):
                 if rng.random() < 0.15:
                     rngs += struct.pack(A, MAXA) + struct.pack(A, low + 0x100)         # base address selection: the following rows move
                 a = pos + rng.choice([0, 4, 0x20])
